@@ -98,7 +98,7 @@ def h_query2(eng, size):
 OPS = ("add", "remove", "move", "readd")
 
 
-def h_history(eng, size, ops, natoms=3, stale=False):
+def h_history(eng, size, ops, natoms=3, stale=False, query_first=False):
     cells, structures = _mods()
 
     class Bio:
@@ -116,6 +116,10 @@ def h_history(eng, size, ops, natoms=3, stale=False):
     log = []
     with patched(*_shims(eng, cells)):
         c.assign_cells(bio)
+        if query_first:
+            # queries are interleaved with the changes in real runs: anything a query remembers must not outlive a change
+            for q in bio.atoms:
+                c.get_near_cells(q)
         for k, (op, who) in enumerate(ops):
             at = atoms[who]
             log.append(f"{op}({at.name})")
@@ -1019,6 +1023,8 @@ def obligations(tier):
             obs.append(Obligation(f"history-size{size}-atoms{natoms}-{tag}", h_history, {"size": size, "ops": list(seq), "natoms": natoms}, group="history", time_cap=3000, max_paths=200000))
 
     hist(2, 1, 2)
+    for op in ("move", "readd"):
+        obs.append(Obligation(f"history-size2-atoms2-query-then-{op}0", h_history, {"size": 2, "ops": [(op, 0)], "natoms": 2, "query_first": True}, group="history", time_cap=3000, max_paths=200000))
     if tier == "thorough":
         # measured: one operation on two atoms at size 5 takes 27 s for the eight sequences; three atoms, or two operations,
         # take more than 15-25 min per group even at size 2 (three / four symbolic points under floor division) and are
@@ -1042,7 +1048,7 @@ def obligations(tier):
     obs.append(Obligation("map-rebuilt-between-passes", h_map_rebuilt, {}, group="map-rebuilt", time_cap=900))
     for hq, ho in ((True, True), (True, False), (False, False)):
         obs.append(Obligation(f"bump-search-{'heavy' if hq else 'hydrogen'}-{'heavy' if ho else 'hydrogen'}", h_bump_search, dict(heavy_query=hq, heavy_other=ho), group="partner-search", time_cap=600))
-    for kind, pre in (("water", ("H1", "LP1")), ("water", ("LP1", "LP2")), ("alcohol", ("LP1",))):
+    for kind, pre in (("water", ("H1", "LP1")), ("water", ("LP1", "LP2")), ("alcohol", ("LP1",)), ("water", ("H1", "LP1", "LP2")), ("alcohol", ("LP1", "LP2"))):
         obs.append(Obligation(f"hydrogen-site-{kind}-{'+'.join(pre)}-donor-attempt", h_hydrogen_site, dict(kind=kind, pre=list(pre), then_complete=True, attempt=True), group="hydrogen-site", time_cap=1200))
     for kind, pre in (("water", ()), ("water", ("H1",)), ("alcohol", ()), ("alcohol", ("LP1",))):
         obs.append(Obligation(f"hydrogen-site-{kind}-{'+'.join(pre) or 'bare'}-undone-try-both", h_hydrogen_site, dict(kind=kind, pre=list(pre), then_complete=True, undo=True), group="hydrogen-site", time_cap=1200))
